@@ -198,7 +198,7 @@ pub fn checks() -> Vec<Check> {
     Check {
         id: "C09",
         level: "model_checking",
-        stages: vec![Stage { timeout_s: 30, ..st("c09.sweep", c08::sweep_budget, (0, 0), 3, "the C08 sweep with per-call budgets: bytes allocated and peak live bytes <= 64*L + 8 MiB (open/XML), 64*L + 192 MiB (iterator steps), L + 1 MiB (blob), device bytes requested <= 4*L + 64 KiB (validate_crc 2*L), 30 s watchdog, iterators yield <= recordCount items; live-byte cap 2 GiB per worker") }],
+        stages: vec![Stage { timeout_s: 30, ..st("c09.sweep", c08::sweep_budget, (0, 0), 3, "the C08 sweep with per-call budgets: bytes allocated and peak live bytes <= 64*L + 8 MiB (open/XML), 64*L + 192 MiB (iterator steps), L + 1 MiB (blob), device bytes requested <= 4*L + 64 KiB (validate_crc 2*L), every single call < 10 s wall, 30 s (thorough 240 s) watchdog per mutant, iterators yield <= recordCount items; live-byte cap 2 GiB per worker") }],
         extra: None,
         rule: "same enumeration as C08; a counting global allocator and a counting device measure every single call (open, each next(), each blob); a worker that exceeds the live-byte cap exits with a distinguished status and the case is reported; distinct = distinct mutant bytes; non-trivial = all calls within budget",
         assumptions: &["budgets are per kind of call; the iterator constant covers the legitimate worst case of one 64 KiB packet of 1-bit values (2^19 values held twice)", "watchdog is a timeout, not a termination proof"],
@@ -337,6 +337,7 @@ pub fn checks() -> Vec<Check> {
         stages: vec![
             st("c19.layouts", c19::layouts, (1, 2), 3, "11 scenes encoded by e57spec under every layout with <=1 (thorough <=2) deviations: copy, compare as read, copy the copy (byte-identical), write twice (byte-identical)"),
             st("c19.programs", c19::programs, (0, 0), 3, "outputs of all writer programs of depth <=2 (thorough <=3) and 250 metadata-rich files (catalogue strings in every field x 5 image kinds)"),
+            st("c19.align", c19::align, (0, 0), 3, "first cloud of 0..344 byte-sized points moves the second cloud's section of the copy through all 255 aligned residues of the page payload"),
             st("c19.bundled", c19::bundled, (0, 0), 3, "every bundled /repo/testdata/*.e57 that opens and whose prototypes follow the writer's documented rules"),
             Stage { twice: true, ..st("c19.determinism", c19::determinism, (0, 0), 3, "all writer programs of depth <=2 executed in two separate sets of worker processes: per-case file bytes must be identical") },
         ],
